@@ -4974,6 +4974,14 @@ impl<'a, 'graph> Builder<'a, 'graph> {
           match result {
             Ok(response) => {
               self.check_specifier(&requested_specifier, response.specifier());
+              if let PendingInfoResponse::Redirect { specifier, .. } = &response
+                && *specifier == requested_specifier
+              {
+                // redirected to itself: no redirect gets recorded, so drop the
+                // in-flight marker for the follow-up load to go out (the
+                // redirect limit then ends the loop with an error)
+                self.graph.module_slots.remove(&requested_specifier);
+              }
 
               self.visit(
                 response,
